@@ -8,6 +8,7 @@ DECIDED = ("R1 Link::delay returns cmp::min(min_latency + sample, max_latency) w
            "Link::now is written only by Link::new / Link::tick, tick updates it unconditionally and Topology::tick_by ticks every "
            "link with the topology clock; R4 a message matures only when `time <= now`; queue discipline is FIFO (shared C08-R3/R4).")
 NOT_DECIDED = "the +-tick numeric window, the latency distribution, 'every message is delivered on a healthy link' as behaviour."
+DECIDED += "; R5 exhaustive scans: process_deliverables and Topology::tick_by"
 ASSUMPTIONS = ["std::cmp::min / Duration arithmetic behave as documented"]
 
 LAT = "turmoil::config::Latency"
@@ -85,6 +86,8 @@ def r2(ctx):
                 if stray:
                     ok = False
                     site = stray[0]
+        if not ok and not uo:
+            ok, site = _select_by_match(ctx, b, fld)
         ctx.inst(R, f"{fid}:select", ok, site, "uses the link override when present, else the global config" if ok else
                  f"`{fid}` does not (only) read the configuration selected by `link override or global`: a per-link setting is ignored")
     for fid, via in (("turmoil::top::Topology::set_link_message_latency", "turmoil::top::Link::latency"),
@@ -103,6 +106,59 @@ def r2(ctx):
         ctx.inst(R, f"{fid}:copy-on-first-use", bool(g), b.span, "override is created from the global config on first use, then kept" if g else
                  "override accessor no longer uses get_or_insert_with on the link's Option")
     ctx.floor(R, 8)
+
+
+def _select_by_match(ctx, b, fld):
+    """the same selection spelled as `match &self.config.<x> { Some(link) => link, None => global }` (or if-let): every read of a
+    Latency / MessageLoss field goes through a reference that is the Some payload of the link's override, or the global argument
+    taken only on the None edge of a test of that override"""
+    CF = ("turmoil::config::Latency::", "turmoil::config::MessageLoss::")
+    ves = variant_edges(b, lambda p: fld in root_place(b, p)[1])
+    none_edges = [m["None"] for _, m, _, adt, _ in ves if "None" in m]
+    some_edges = [m["Some"] for _, m, _, adt, _ in ves if "Some" in m]
+    if not none_edges:
+        # `if let Some(..)` lowers to a switch with only the Some target: the else edge is the None edge
+        none_edges = [els for _, m, els, adt, _ in ves if "Some" in m and "None" not in m]
+    if not ves:
+        return False, b.span
+
+    def sources(l, seen):
+        """(kind, def block) for the references local l may hold"""
+        if l in seen:
+            return []
+        seen.add(l)
+        if 1 <= l <= b.argc:
+            return [("global" if l == 2 else "other", 0)]
+        out = []
+        for bb, idx, s in b.defs().get(l, []):
+            if idx == "term" or s["p"].get("p"):
+                out.append(("other", bb))
+                continue
+            r = s["r"]
+            pl = op_place(r.get("o")) if r["k"] in ("use", "cast") else r.get("p") if r["k"] in ("ref", "addr") else None
+            if pl is None:
+                out.append(("other", bb))
+            elif fld in root_place(b, pl)[1] and root_place(b, pl)[0] == 1:
+                out.append(("override", bb))
+            elif not [e for e in (pl.get("p") or ()) if e != "*"]:
+                sub_ = sources(pl["l"], seen)
+                out += [(k, bb if k == "global" and pl["l"] == 2 else sb) for k, sb in sub_]
+            else:
+                out.append(("other", bb))
+        return out
+
+    kinds, bad_site = set(), None
+    for bb2, i2, s2 in b.all_stmts():
+        pls = [op_place(o) for o in _ops(s2["r"])] + ([s2["r"]["p"]] if isinstance(s2["r"].get("p"), dict) else [])
+        for pl in pls:
+            if not pl or not any(f.startswith(CF) for f in place_fields(pl)):
+                continue
+            for kind, db in sources(pl["l"], set()):
+                kinds.add(kind)
+                if kind == "other" or (kind == "global" and not b.dominated_by_any(db, edges=none_edges)):
+                    bad_site = s2["s"]
+    ok = bad_site is None and "override" in kinds and "global" in kinds
+    return ok, bad_site or b.span
 
 
 def _derives_from_select(ctx, b, l):
